@@ -9,7 +9,7 @@
    reproduces byte for byte. *)
 From Coq Require Import String NArith List Bool.
 From RC Require Import lib.Result model.Layout model.TrigTable model.RichCodec model.Str model.StrEditor model.Alloc
-  proofs.C04_proofs proofs.C04_readback proofs.C04_locations proofs.C04_cuwps proofs.C04_reload proofs.C04_reload_locs proofs.C04_reload_cuwps proofs.C04_switches proofs.C04_wavs model.ChkIo gen.GenConsts proofs.C07_triggers proofs.C07_slots model.RichIo proofs.C08_proofs proofs.C09_proofs proofs.Save_strings proofs.Save_refs gen.GenTrig spec.SpecTrig gen.GenFlags gen.GenConsts.
+  proofs.C04_proofs proofs.C04_readback proofs.C04_locations proofs.C04_cuwps proofs.C04_reload proofs.C04_reload_locs proofs.C04_reload_cuwps proofs.C04_reload_switches proofs.C04_switches proofs.C04_wavs model.ChkIo gen.GenConsts proofs.C07_triggers proofs.C07_slots model.RichIo proofs.C08_proofs proofs.C09_proofs proofs.Save_strings proofs.Save_refs gen.GenTrig spec.SpecTrig gen.GenFlags gen.GenConsts.
 Import ListNotations.
 Local Open Scope N_scope.
 
@@ -341,3 +341,19 @@ Theorem C04_an_authored_condition_is_read_back_by_a_later_context :
           ((exists x, arg_get rarg a args = Ok x /\ R x x') \/ (exists d, wav_duration cx args = Ok d /\ x' = AInt d)).
 Proof. exact authored_condition_reads_back_later. Qed.
 Print Assumptions C04_an_authored_condition_is_read_back_by_a_later_context.
+
+(* END TO END for a switch argument: the number a save writes for a named switch is resolved, by the switch lookup a later load of
+   the saved map builds, to the switch of that number carrying the authored name (under the complement of the recorded
+   two-names-one-number finding) *)
+Theorem C04_a_switch_number_resolves_to_the_named_switch_after_reload :
+  forall wd r d' cx' sw new_str SL s k,
+    save wd r = Ok d' -> decode_context d' = Ok cx' ->
+    RichIo.rebuild_swnm r = Ok sw -> rebuild_str r = Ok new_str -> build_str_lookup 2 new_str = Ok SL ->
+    (N.of_nat (length (sl_by_id SL)) <= 1000000)%N ->
+    (forall x, In x r -> named "SWNM" x = true -> exists ss, x = RSwnm ss) -> (length (filter (named "SWNM") r) <= 1)%nat ->
+    find_switch_id s (snd sw) None = Some k -> (N.to_nat k < N.to_nat MAX_SWITCHES)%nat ->
+    rstr_empty (s_name s) = false ->
+    (forall u, In (u, k) (snd sw) -> rstr_empty (s_name u) = false -> sw_norm u = sw_norm s) ->
+    exists entry, assocN_last k (cx_switch_by_id cx') = Some entry /\ sw_norm entry = sw_norm s /\ s_idx entry = Some k.
+Proof. exact switch_number_resolves_after_reload. Qed.
+Print Assumptions C04_a_switch_number_resolves_to_the_named_switch_after_reload.
